@@ -898,8 +898,9 @@ def call_held(ctx, smp, st, n, ex):
     god = oversampled_cls(bool(st.get("cls_sub")))(grid=held, over_sampler=smp, pixels_in_mask=n)
     fn = np_ufun(st["f"])
     r = Profile(fn).image_2d_from(god)
-    if god.grid is not held or god.over_sampler is not smp or god.pixels_in_mask != n:
-        ctx.watches.append(("god", None, lambda o: "attributes of the Grid2DOverSampled were replaced by the call"))
+    try: same = qqlist(god.grid) == ptsq and god.over_sampler is smp and god.pixels_in_mask == n
+    except Exception: same = False
+    if not same: ctx.watches.append(("god", None, lambda o: "the Grid2DOverSampled no longer holds the points / over sampler it was built with"))
     return r, ptsq
 _IRRSUB = []
 
